@@ -84,21 +84,21 @@ func objects() []obj {
 	}
 	allow := wm.ARule{Action: "Allow", Peers: []wm.APeer{{Namespaces: all}}, Ports: &[]wm.APort{{Kind: "num", Proto: "TCP", Num: 80}}}
 	deny := wm.ARule{Action: "Deny", Peers: []wm.APeer{{Namespaces: all}}}
-	subjB := wm.APeer{Namespaces: wm.ML(wm.NSNameKey, "b")}
+	subjB := wm.APeer{Namespaces: wm.ML(wm.NSNameKey, "default")}
 	return []obj{
 		{kind: "Namespace", key: "Namespace//a", variant: "team=x", ns: &wm.NS{Name: "a", Labels: map[string]string{"team": "x"}, HasObj: true}},
 		{kind: "Namespace", key: "Namespace//a", variant: "team=y", ns: &wm.NS{Name: "a", Labels: map[string]string{"team": "y"}, HasObj: true}},
 		{kind: "Namespace", key: "Namespace//a", variant: "nolabels", ns: &wm.NS{Name: "a", Labels: map[string]string{}, HasObj: true}},
-		{kind: "Namespace", key: "Namespace//b", variant: "", ns: &wm.NS{Name: "b", Labels: map[string]string{}, HasObj: true}},
+		{kind: "Namespace", key: "Namespace//default", variant: "", ns: &wm.NS{Name: "default", Labels: map[string]string{}, HasObj: true}},
 		mkpod("app=a", "a", "p1", "rs1", map[string]string{"app": "a"}, 80),
 		mkpod("app=c", "a", "p1", "rs1", map[string]string{"app": "c"}, 80),
 		mkpod("app=a", "a", "p2", "rs1", map[string]string{"app": "a"}, 80),
-		mkpod("http80", "b", "p3", "rs2", map[string]string{"app": "b"}, 80),
-		mkpod("http8080", "b", "p3", "rs2", map[string]string{"app": "b"}, 8080),
-		mkpod("noowner", "b", "p4", "", map[string]string{"app": "b"}, 80),
-		{kind: "NetworkPolicy", key: "NetworkPolicy/b/n1", variant: "v1", np: &wm.NP{NS: "b", Name: "n1", PodSel: wm.Sel{}, Types: []string{"Ingress"},
+		mkpod("http80", "default", "p3", "rs2", map[string]string{"app": "b"}, 80),
+		mkpod("http8080", "default", "p3", "rs2", map[string]string{"app": "b"}, 8080),
+		mkpod("noowner", "default", "p4", "", map[string]string{"app": "b"}, 80),
+		{kind: "NetworkPolicy", key: "NetworkPolicy/default/n1", variant: "v1-namespace-omitted", np: &wm.NP{NS: "", Name: "n1", PodSel: wm.Sel{}, Types: []string{"Ingress"},
 			Ingress: []wm.NPRule{{Peers: []wm.NPPeer{{NSSel: wm.ML("team", "x"), Pod: wm.ML("app", "a")}}, Ports: []wm.NPPort{{HasPort: true, Name: "http"}}}}}},
-		{kind: "NetworkPolicy", key: "NetworkPolicy/b/n1", variant: "v2", np: &wm.NP{NS: "b", Name: "n1", PodSel: wm.Sel{}, Types: []string{"Ingress"},
+		{kind: "NetworkPolicy", key: "NetworkPolicy/default/n1", variant: "v2", np: &wm.NP{NS: "default", Name: "n1", PodSel: wm.Sel{}, Types: []string{"Ingress"},
 			Ingress: []wm.NPRule{{Ports: []wm.NPPort{{HasPort: true, Num: 8080}}}}}},
 		{kind: "NetworkPolicy", key: "NetworkPolicy/a/n2", variant: "", np: &wm.NP{NS: "a", Name: "n2", PodSel: *wm.ML("app", "a"), Types: []string{"Egress"},
 			Egress: []wm.NPRule{{Peers: []wm.NPPeer{{NSSel: all}}, Ports: []wm.NPPort{{HasPort: true, Num: 80}}}}}},
@@ -108,7 +108,7 @@ func objects() []obj {
 	}
 }
 
-var queries = [][4]string{{"a/p1", "b/p3", "tcp", "80"}, {"a/p1", "b/p3", "tcp", "8080"}, {"a/p2", "b/p3", "tcp", "80"}, {"b/p3", "a/p1", "tcp", "80"}, {"a/p1", "b/p4", "tcp", "80"}, {"a/p1", "a/p2", "tcp", "8080"}}
+var queries = [][4]string{{"a/p1", "default/p3", "tcp", "80"}, {"a/p1", "default/p3", "tcp", "8080"}, {"a/p2", "default/p3", "tcp", "80"}, {"default/p3", "a/p1", "tcp", "80"}, {"a/p1", "default/p4", "tcp", "80"}, {"a/p1", "a/p2", "tcp", "8080"}}
 
 func ops() []op {
 	var res []op
@@ -156,7 +156,11 @@ func (m model) world() *wm.World {
 		case o.pod != nil:
 			w.WLs = append(w.WLs, *o.pod)
 		case o.np != nil:
-			w.NPs = append(w.NPs, *o.np)
+			np := *o.np
+			if np.NS == "" {
+				np.NS = "default"
+			}
+			w.NPs = append(w.NPs, np)
 		case o.anp != nil:
 			w.ANPs = append(w.ANPs, *o.anp)
 		case o.banp != nil:
@@ -411,14 +415,14 @@ func seeds(alpha []op) [][]*op {
 		}
 		return r
 	}
-	full := []string{"ins:Namespace//a#team=x", "ins:Namespace//b#", "ins:Pod/a/p1#app=a", "ins:Pod/a/p2#app=a", "ins:Pod/b/p3#http80", "ins:NetworkPolicy/b/n1#v1"}
+	full := []string{"ins:Namespace//a#team=x", "ins:Namespace//default#", "ins:Pod/a/p1#app=a", "ins:Pod/a/p2#app=a", "ins:Pod/default/p3#http80", "ins:NetworkPolicy/default/n1#v1-namespace-omitted"}
 	return [][]*op{
 		nil,
 		pick(full...),
 		pick(append(append([]string{}, full...), "ins:ANP//a5#allow80@5", "ins:ANP//a10#deny@10")...),
 		pick(append(append([]string{}, full[:5]...), "ins:ANP//a10#deny@10", "ins:ANP//a5#allow80@5", "ins:BANP//default#deny")...),
-		pick(append(append([]string{}, full...), "q:a/p1,b/p3,tcp,80", "q:a/p1,b/p3,tcp,8080", "q:b/p3,a/p1,tcp,80")...),
-		pick("ins:Pod/a/p1#app=a", "ins:Pod/b/p3#http80", "ins:Pod/b/p4#noowner", "ins:BANP//default#deny"),
+		pick(append(append([]string{}, full...), "q:a/p1,default/p3,tcp,80", "q:a/p1,default/p3,tcp,8080", "q:default/p3,a/p1,tcp,80")...),
+		pick("ins:Pod/a/p1#app=a", "ins:Pod/default/p3#http80", "ins:Pod/default/p4#noowner", "ins:BANP//default#deny"),
 	}
 }
 
@@ -515,7 +519,9 @@ func Run(r *fw.Run) {
 							outs[i] = o
 							continue
 						}
-						o.key = sha1.Sum([]byte(res.pe.VerifDump()))
+						// a state is the pair (engine state, current objects of the model): an operation that silently fails to
+						// change the engine leaves the dump unchanged but not the model, and must not be merged with the state before
+						o.key = sha1.Sum([]byte(res.pe.VerifDump() + "\x00MODEL" + strings.Join(res.m.describe(), ";")))
 						outs[i] = o
 					}
 				}()
